@@ -172,7 +172,7 @@ Print Assumptions C03_spec_unsupported_refused.
 (* whole file in the kernel: three pages over two row groups, optional INT64 column, dictionary with a
    second dictionary page, fallback to PLAIN, a v2 page with NULLs *)
 Definition ex3 : lfile :=
-  {| l_leaves := [ {| ll_name := [99]; ll_type := INT64; ll_tlen := 0; ll_optional := true; ll_conv := None; ll_logical := None |} ];
+  {| l_leaves := [ {| ll_name := [99]; ll_type := INT64; ll_tlen := 0; ll_optional := true; ll_conv := None; ll_logical := None; ll_scale := None; ll_prec := None |} ];
      l_rgs := [ [ {| lc_codec := 0%Z; lc_stats := true;
                      lc_items := [ LDict 2%Z [VNum 5; VNum 18446744073709551615];
                                    LData {| lp_v2 := false; lp_nvals := 4; lp_def := [BP [1; 0; 1; 1]];
